@@ -136,9 +136,10 @@ theorem no_help_shortcut_for_launchers (tokens : List String) (cwd : String) (re
 /-! ### (c) pure wrappers -/
 
 /-- the plain forms: nothing but the wrapper's own numbers and flags is skipped -/
-theorem skip_plain (fwa : List String) (c : String) (cs : List String)
+theorem skip_plain (fwa : WrapOpts) (c : String) (cs : List String)
     (hnum : Py.isDigitStr c = false) (hnum2 : Py.isDigitStr (Py.removeChar c '.') = false)
-    (hfwa : c ∉ fwa)
+    (hdur : (fwa.duration && isDuration c) = false)
+    (hfwa : c ∉ fwa.flags)
     (hflag : Py.startsWith c "-" = false) :
     skipWrapperArgs fwa (c :: cs) = c :: cs := by
   have hne : (c == "--") = false := by
@@ -148,29 +149,43 @@ theorem skip_plain (fwa : List String) (c : String) (cs : List String)
       have : c = "--" := by simpa using hc
       subst this
       revert hflag; decide
-  simp [skipWrapperArgs, skipWrapperAux, hnum, hnum2, hflag, hne, hfwa]
+  simp [skipWrapperArgs, skipWrapperAux, hnum, hnum2, hflag, hne, hfwa, hdur]
 
-theorem skip_double_dash (fwa : List String) (cs : List String) (hfwa : "--" ∉ fwa) :
+theorem skip_double_dash (fwa : WrapOpts) (cs : List String) (hfwa : "--" ∉ fwa.flags) :
     skipWrapperArgs fwa ("--" :: cs) = cs := by
   have h1 : Py.isDigitStr "--" = false := by decide +kernel
   have h2 : Py.isDigitStr (Py.removeChar "--" '.') = false := by decide +kernel
-  simp [skipWrapperArgs, skipWrapperAux, h1, h2, hfwa]
+  have h3 : isDuration "--" = false := by decide +kernel
+  simp [skipWrapperArgs, skipWrapperAux, h1, h2, h3, hfwa]
 
-theorem skip_number (fwa : List String) (n : String) (cs : List String) (hn : Py.isDigitStr n = true) :
+theorem skip_number (fwa : WrapOpts) (n : String) (cs : List String) (hn : Py.isDigitStr n = true) :
     skipWrapperArgs fwa (n :: cs) = skipWrapperArgs fwa cs := by
   simp [skipWrapperArgs, skipWrapperAux, hn]
 
 /-- `-n 5`, `-s KILL`: an option of the table takes the next word with it -/
-theorem skip_flag_with_arg (fwa : List String) (f a : String) (cs : List String) (hf : f ∈ fwa)
-    (hn : Py.isDigitStr f = false) (hn2 : Py.isDigitStr (Py.removeChar f '.') = false) :
+theorem skip_flag_with_arg (fwa : WrapOpts) (f a : String) (cs : List String) (hf : f ∈ fwa.flags)
+    (hn : Py.isDigitStr f = false) (hn2 : Py.isDigitStr (Py.removeChar f '.') = false)
+    (hdur : (fwa.duration && isDuration f) = false) :
     skipWrapperArgs fwa (f :: a :: cs) = skipWrapperArgs fwa cs := by
-  simp [skipWrapperArgs, skipWrapperAux, hn, hn2, hf]
+  simp [skipWrapperArgs, skipWrapperAux, hn, hn2, hf, hdur]
 
-theorem skip_flag (fwa : List String) (f : String) (cs : List String) (hf : Py.startsWith f "-" = true) (hd : f ≠ "--")
-    (hfwa : f ∉ fwa)
-    (hn : Py.isDigitStr f = false) (hn2 : Py.isDigitStr (Py.removeChar f '.') = false) :
+theorem skip_flag (fwa : WrapOpts) (f : String) (cs : List String) (hf : Py.startsWith f "-" = true) (hd : f ≠ "--")
+    (hfwa : f ∉ fwa.flags)
+    (hn : Py.isDigitStr f = false) (hn2 : Py.isDigitStr (Py.removeChar f '.') = false)
+    (hdur : (fwa.duration && isDuration f) = false) :
     skipWrapperArgs fwa (f :: cs) = skipWrapperArgs fwa cs := by
-  simp [skipWrapperArgs, skipWrapperAux, hn, hn2, hf, hd, hfwa]
+  simp [skipWrapperArgs, skipWrapperAux, hn, hn2, hf, hd, hfwa, hdur]
+
+/-- `timeout 30s cmd`, `timeout 1.5m cmd`: the duration is skipped, the command found -/
+theorem skip_duration (fwa : WrapOpts) (d : String) (cs : List String) (hd : fwa.duration = true) (hdur : isDuration d = true) :
+    skipWrapperArgs fwa (d :: cs) = skipWrapperArgs fwa cs := by
+  by_cases h1 : (Py.isDigitStr d || Py.isDigitStr (Py.removeChar d '.')) = true
+  · simp only [skipWrapperArgs, skipWrapperAux, h1, ↓reduceIte]
+  · simp [skipWrapperArgs, skipWrapperAux, h1, hd, hdur]
+
+example : isDuration "30s" = true ∧ isDuration "1.5m" = true ∧ isDuration ".5" = true ∧ isDuration "2h" = true
+    ∧ isDuration "5x" = false ∧ isDuration "7z" = false ∧ isDuration "s" = false ∧ isDuration "1.2.3" = false
+    ∧ isDuration "" = false ∧ isDuration "." = false := by decide +kernel
 
 /-- `W args… c` has exactly the verdict of `c` when no rule is written for the wrapped form -/
 theorem pure_wrapper_exact (n : Nat) (W : String) (rest inner : List String) (cwd : String) (rem : Bool)
@@ -188,19 +203,20 @@ theorem xargsSkip_suffix (b : Bool) (l : List String) : xargsSkip b l <:+ l := b
   induction l generalizing b with
   | nil => cases b <;> simp [xargsSkip]
   | cons t rest ih =>
+    have h1 := List.IsSuffix.trans (ih true) (List.suffix_cons t rest)
+    have h0 := List.IsSuffix.trans (ih false) (List.suffix_cons t rest)
     cases b with
     | true =>
       simp only [xargsSkip]
-      exact List.IsSuffix.trans (ih false) (List.suffix_cons t rest)
+      exact h0
     | false =>
       simp only [xargsSkip]
-      split
-      · exact List.suffix_cons t rest
-      · split
-        · exact List.suffix_refl _
-        · split
-          · exact List.IsSuffix.trans (ih true) (List.suffix_cons t rest)
-          · exact List.IsSuffix.trans (ih false) (List.suffix_cons t rest)
+      repeat' split
+      all_goals first
+        | exact List.suffix_cons t rest
+        | exact List.suffix_refl _
+        | exact h1
+        | exact h0
 
 /-- xargs: the delegated text is the re-quoting of a non-empty suffix of the command line -/
 theorem xargsUnsafe_asks (l : List String) (c : Classification) (h : xargsUnsafe l = some c) : c.action = "ask" := by
@@ -218,7 +234,9 @@ theorem xargsUnsafe_asks (l : List String) (c : Classification) (h : xargsUnsafe
         · simp at h; subst h; rfl
         · split at h
           · simp at h; subst h; rfl
-          · exact ih h
+          · split at h
+            · simp at h; subst h; rfl
+            · exact ih h
 
 theorem xargs_inner_suffix (tokens : List String) (c : Classification)
     (hc : xargsClassify tokens = c) (hd : c.action = "delegate") :
@@ -306,19 +324,38 @@ theorem dockerExecInner_suffix (b : Bool) (l inner : List String) (hi : dockerEx
               subst hi
               exact ⟨by intro he; rw [he] at hne; simp at hne, List.suffix_cons t rest⟩
 
-/-- env (without -S): what is delegated is the re-quoting of a non-empty suffix of the command line -/
+theorem clusterFind_mem (fwa : List String) (cs : List Char) (c : Char) (att : List Char)
+    (h : clusterFind fwa cs = some (c, att)) : c ∈ cs := by
+  induction cs with
+  | nil => simp [clusterFind] at h
+  | cons x r ih =>
+    unfold clusterFind at h
+    split at h
+    · simp only [Option.some.injEq, Prod.mk.injEq] at h
+      simp [h.1]
+    · exact List.mem_cons_of_mem _ (ih h)
+
+/-- env hands on a non-empty suffix of its words, re-quoted – unless a split-string option is present (then the
+    string is handed on verbatim, `shell_c_verbatim`-style): `--split-string[=…]` or a short-option word containing `S` -/
 theorem envLoop_suffix (b : Bool) (l : List String) (c : Classification) (hc : envLoop b l = c) (hd : c.action = "delegate") :
     (∃ inner, inner ≠ [] ∧ inner <:+ l ∧ c.innerCommand = some (bashJoin inner))
-      ∨ (∃ t, t ∈ l ∧ (t = "-S" ∨ t = "--split-string" ∨ Py.startsWith t "--split-string=" = true ∨ Py.startsWith t "-S" = true)) := by
+      ∨ (∃ t, t ∈ l ∧ (t = "--split-string" ∨ Py.startsWith t "--split-string=" = true
+          ∨ (isShort t = true ∧ 'S' ∈ t.toList))) := by
   induction l generalizing b with
   | nil => cases b <;> (simp [envLoop] at hc; subst hc; simp [allow] at hd)
   | cons t rest ih =>
+    have lift : ∀ b', envLoop b' rest = c →
+        (∃ inner, inner ≠ [] ∧ inner <:+ t :: rest ∧ c.innerCommand = some (bashJoin inner))
+          ∨ (∃ x, x ∈ t :: rest ∧ (x = "--split-string" ∨ Py.startsWith x "--split-string=" = true
+              ∨ (isShort x = true ∧ 'S' ∈ x.toList))) := by
+      intro b' h
+      rcases ih b' h with ⟨inner, h1, h2, h3⟩ | ⟨x, hx, hx'⟩
+      · exact Or.inl ⟨inner, h1, List.IsSuffix.trans h2 (List.suffix_cons t rest), h3⟩
+      · exact Or.inr ⟨x, by simp [hx], hx'⟩
     cases b with
     | true =>
       simp only [envLoop] at hc
-      rcases ih false hc with ⟨inner, h1, h2, h3⟩ | ⟨x, hx, hx'⟩
-      · exact Or.inl ⟨inner, h1, List.IsSuffix.trans h2 (List.suffix_cons t rest), h3⟩
-      · exact Or.inr ⟨x, by simp [hx], hx'⟩
+      exact lift false hc
     | false =>
       simp only [envLoop] at hc
       split at hc
@@ -331,29 +368,30 @@ theorem envLoop_suffix (b : Bool) (l : List String) (c : Classification) (hc : e
           exact Or.inl ⟨rest, by intro he; simp [he] at hne, List.suffix_cons t rest, rfl⟩
       · split at hc
         · rename_i hS
-          exact Or.inr ⟨t, by simp, by
-            simp only [Bool.or_eq_true, beq_iff_eq] at hS
-            rcases hS with h | h
-            · exact Or.inl h
-            · exact Or.inr (Or.inl h)⟩
+          exact Or.inr ⟨t, by simp, Or.inl (by simpa using hS)⟩
         · split at hc
-          · rename_i hS; exact Or.inr ⟨t, by simp, Or.inr (Or.inr (Or.inl hS))⟩
+          · rename_i hS; exact Or.inr ⟨t, by simp, Or.inr (Or.inl hS)⟩
           · split at hc
-            · rename_i hS
-              simp only [Bool.and_eq_true] at hS
-              exact Or.inr ⟨t, by simp, Or.inr (Or.inr (Or.inr hS.1))⟩
-            · split at hc
-              · rcases ih true hc with ⟨inner, h1, h2, h3⟩ | ⟨x, hx, hx'⟩
-                · exact Or.inl ⟨inner, h1, List.IsSuffix.trans h2 (List.suffix_cons t rest), h3⟩
-                · exact Or.inr ⟨x, by simp [hx], hx'⟩
-              · split at hc
-                · rcases ih false hc with ⟨inner, h1, h2, h3⟩ | ⟨x, hx, hx'⟩
-                  · exact Or.inl ⟨inner, h1, List.IsSuffix.trans h2 (List.suffix_cons t rest), h3⟩
-                  · exact Or.inr ⟨x, by simp [hx], hx'⟩
+            · -- a cluster with a value-taking option
+              rename_i ch attached hfind
+              by_cases hshort : isShort t = true
+              · simp only [hshort, ↓reduceIte] at hfind
+                have hmem := clusterFind_mem _ _ _ _ hfind
+                split at hc
+                · rename_i hS
+                  have : ch = 'S' := by simpa using hS
+                  subst this
+                  exact Or.inr ⟨t, by simp, Or.inr (Or.inr ⟨hshort, List.mem_of_mem_drop hmem⟩)⟩
                 · split at hc
-                  · rcases ih false hc with ⟨inner, h1, h2, h3⟩ | ⟨x, hx, hx'⟩
-                    · exact Or.inl ⟨inner, h1, List.IsSuffix.trans h2 (List.suffix_cons t rest), h3⟩
-                    · exact Or.inr ⟨x, by simp [hx], hx'⟩
+                  · exact lift true hc
+                  · exact lift false hc
+              · simp [hshort] at hfind
+            · split at hc
+              · exact lift true hc
+              · split at hc
+                · exact lift false hc
+                · split at hc
+                  · exact lift false hc
                   · unfold envInner at hc
                     simp only [List.isEmpty_cons, Bool.false_eq_true, ↓reduceIte] at hc
                     subst hc
